@@ -77,6 +77,12 @@ CLAIMS = {
         "note": "Interleavings are whatever the OS scheduler produces on 16 cores (contention indicator in the evidence: reads that observed foreign updates); no systematic schedule enumeration.",
         "technique": "runtime monitoring: shadow model for getters + conservation/monotonicity monitor over concurrent increments",
     },
+    "C09": {
+        "text": "Exploration on the virtual clock through the public getters only (per_sec, eta, duration, elapsed): four law families - steady progress at an exactly constant rate under log-uniform/tiny/fixed cadences from 1 ms to 10 days (relative error <= 1e-6); boundedness by the largest segment rate and stall behaviour queried at nine instants up to one hour (never above the bound, below 1% after 60 s, monotone decay); forgetting (H1; reset_eta|reset|rewind; H2 must equal a fresh bar fed H2 alone within 1e-9); corners (no progress, zero/unknown length, finished). eta = (len-pos)/per_sec and duration = elapsed+eta are checked at every query instant.",
+        "design_ref": "DESIGN.md §4 C09",
+        "note": "Laws, not a closed form (none exists for irregular cadences). Trusted: the virtual clock shim. The monotone-decay law is a recorded known finding (rises at the start of some stalls by design); the other stall laws are still evaluated in those histories.",
+        "technique": "runtime monitoring: algebraic/metamorphic trace laws over getter values on a virtual clock",
+    },
 }
 
 ALL = [f"C{n:02d}" for n in range(1, 20)]
